@@ -96,6 +96,22 @@ class NotInlinable(Exception):
     pass
 
 
+class _SpliceStar(ast.NodeTransformer):
+    """f(a, *(p, q)) -> f(a, p, q)  (a tuple display under a star, produced when explicit extras were bound to *args)."""
+
+    def visit_Call(self, c):
+        self.generic_visit(c)
+        if any(isinstance(x, ast.Starred) and isinstance(x.value, (ast.Tuple, ast.List)) for x in c.args):
+            new = []
+            for x in c.args:
+                if isinstance(x, ast.Starred) and isinstance(x.value, (ast.Tuple, ast.List)):
+                    new += list(x.value.elts)
+                else:
+                    new.append(x)
+            c.args = new
+        return c
+
+
 def _to_assignments(stmts, result: str, at):
     """Rewrite a statement list so that every `return E` becomes `result = E` and nothing after it runs (structured form)."""
     out = []
@@ -238,7 +254,13 @@ class Expander:
         star_pass = {}
         starred = [x for x in call.args if isinstance(x, ast.Starred)]
         dstar = [k for k in call.keywords if k.arg is None]
-        if starred or dstar or a.vararg or a.kwarg:
+        n_fixed = len(a.posonlyargs) + len(a.args) - (1 if (is_method and not self._is_static(fn) and (a.posonlyargs + a.args) and (a.posonlyargs + a.args)[0].arg in ("self", "cls")) else 0)
+        if a.vararg and not starred and not dstar and not a.kwarg and len(call.args) >= n_fixed and not any(k.arg is None for k in call.keywords):
+            # explicit extras into *args:  f(x, p, q)  into  def f(x, *args)  -> args == (p, q)
+            extras = call.args[n_fixed:]
+            star_pass[a.vararg.arg] = ast.Tuple(elts=list(extras), ctx=ast.Load())
+            call = ast.Call(func=call.func, args=list(call.args[:n_fixed]), keywords=list(call.keywords))
+        elif starred or dstar or a.vararg or a.kwarg:
             # pure pass-through:  f(..., *args, **kwargs)  into  def f(..., *args, **kwargs)
             ok = len(starred) == (1 if a.vararg else 0) and len(dstar) == (1 if a.kwarg else 0) and len(starred) <= 1 and len(dstar) <= 1
             if ok and starred:
@@ -434,6 +456,43 @@ class Expander:
             return keep
         fn.body = prune(fn.body) or [ast.copy_location(ast.Pass(), fn)]
 
+    def inline_dynamic_dispatch(self, fn: ast.FunctionDef, mi) -> bool:
+        """Reflection with a constant name is ordinary attribute access: `getattr(o, "m")` -> `o.m`,
+        `operator.methodcaller("m", *a, **k)(o)` -> `o.m(*a, **k)` (also through a local bound once to the methodcaller)."""
+        changed = False
+
+        def is_methodcaller(c):
+            return isinstance(c, ast.Call) and isinstance(c.func, (ast.Name, ast.Attribute)) and self.repo.resolve_expr(mi, c.func) == "operator.methodcaller" \
+                and c.args and isinstance(c.args[0], ast.Constant) and isinstance(c.args[0].value, str) and c.args[0].value.isidentifier()
+        stores, mc = {}, {}
+        for n in ast.walk(fn):
+            if isinstance(n, ast.Name) and isinstance(n.ctx, ast.Store):
+                stores[n.id] = stores.get(n.id, 0) + 1
+            if isinstance(n, ast.Assign) and len(n.targets) == 1 and isinstance(n.targets[0], ast.Name) and is_methodcaller(n.value):
+                mc[n.targets[0].id] = n.value
+
+        class T(ast.NodeTransformer):
+            def visit_Call(self_inner, c):
+                nonlocal changed
+                self_inner.generic_visit(c)
+                f = c.func
+                src = None
+                if isinstance(f, ast.Name) and f.id in mc and stores.get(f.id) == 1:
+                    src = mc[f.id]
+                elif is_methodcaller(f):
+                    src = f
+                if src is not None and len(c.args) == 1 and not c.keywords and not isinstance(c.args[0], ast.Starred):
+                    changed = True
+                    return ast.copy_location(ast.Call(func=ast.Attribute(value=c.args[0], attr=src.args[0].value, ctx=ast.Load()), args=[clone(a) for a in src.args[1:]],
+                                                      keywords=[clone(k) for k in src.keywords]), c)
+                if isinstance(f, ast.Name) and f.id == "getattr" and len(c.args) == 2 and not c.keywords and isinstance(c.args[1], ast.Constant) and isinstance(c.args[1].value, str) \
+                        and c.args[1].value.isidentifier() and "getattr" not in stores:
+                    changed = True
+                    return ast.copy_location(ast.Attribute(value=c.args[0], attr=c.args[1].value, ctx=ast.Load()), c)
+                return c
+        T().visit(fn)
+        return changed
+
     def expand_function(self, fn: ast.FunctionDef, mi, cls_qual, qual, stack=()):
         self._closures, self._closures_on = self._local_closures(fn, qual), True
         try:
@@ -457,6 +516,9 @@ class Expander:
         for _ in range(2):
             if not self.inline_local_lambdas(fn):
                 break
+            changed = True
+            fn.body, ch = self._block(fn.body, mi, cls_qual, qual, stack + (qual,), 0)
+        if self.inline_dynamic_dispatch(fn, mi):
             changed = True
             fn.body, ch = self._block(fn.body, mi, cls_qual, qual, stack + (qual,), 0)
         if changed:
@@ -546,6 +608,7 @@ class Expander:
                 if expr is not None and not _contains(expr, (ast.Yield, ast.YieldFrom, ast.Await)):
                     if self_expr is not None and not self._is_static(cfn):
                         expr = _Rename({}, self_expr).visit(expr)
+                    expr = _SpliceStar().visit(expr)
                     expr = self._relocate(expr, call)
                     self._replace(s, call, expr)
                     self.inlined.append((qual, cq, "expr"))
@@ -652,13 +715,14 @@ class Expander:
         stored_in_callee = {n.id for x in body for n in ast.walk(x) if isinstance(n, ast.Name) and isinstance(n.ctx, (ast.Store, ast.Del))}
         direct = {}
         for p, v in binding.items():
-            if p not in stored_in_callee and (isinstance(v, ast.Constant) or (_dotted(v) is not None and len(ast.dump(v)) < 400)):
+            simple = lambda x_: isinstance(x_, ast.Constant) or (_dotted(x_) is not None and len(ast.dump(x_)) < 400)
+            if p not in stored_in_callee and (simple(v) or (isinstance(v, ast.Tuple) and all(simple(x_) for x_ in v.elts))):
                 direct[p] = v
         names_r = dict(names)
         for p, v in direct.items():
             names_r[p] = v          # _Rename deep-copies expression replacements for loads
         ren = _Rename(names_r, self_expr if (self_expr is not None and not self._is_static(cfn)) else None)
-        body = [ren.visit(x) for x in body]
+        body = [_SpliceStar().visit(ren.visit(x)) for x in body]
         body = _to_assignments(body, res, call)
         if assign_to is not None:
             # `targets = CALL`: every `ret = E` becomes `targets = E`
